@@ -374,7 +374,7 @@ pub fn witnesses() -> Vec<Witness> {
                 Topo::Share(2),
                 vec![pspec(Mode::PullSync, Fin::End)],
                 vec![2],
-                vec![ProbeSpec { policy: vec![React::Nothing], rest: React::Pull, pull_cap: 1000, attach: None }, ProbeSpec::passive()],
+                vec![ProbeSpec { policy: vec![React::Nothing], rest: React::Pull, pull_cap: 1000, attach: None, late_pulls: false }, ProbeSpec::passive()],
             ),
             acts: vec![Act::Subscribe(1), Act::ProbeAct(1, React::Pull)],
         },
@@ -386,8 +386,8 @@ pub fn witnesses() -> Vec<Witness> {
                 vec![pspec(Mode::PullSync, Fin::End)],
                 vec![3],
                 vec![
-                    ProbeSpec { policy: vec![React::Nothing, React::Pull, React::Nothing], rest: React::Nothing, pull_cap: 1000, attach: None },
-                    ProbeSpec { policy: vec![React::Nothing, React::Terminate], rest: React::Nothing, pull_cap: 1000, attach: None },
+                    ProbeSpec { policy: vec![React::Nothing, React::Pull, React::Nothing], rest: React::Nothing, pull_cap: 1000, attach: None, late_pulls: false },
+                    ProbeSpec { policy: vec![React::Nothing, React::Terminate], rest: React::Nothing, pull_cap: 1000, attach: None, late_pulls: false },
                 ],
             ),
             acts: vec![Act::Subscribe(1), Act::ProbeAct(1, React::Pull)],
